@@ -56,8 +56,13 @@ def gen_history(rng: Rng, tier: str, kmax=3, allow_fixture=True, allow_real_sour
             if op["op"] == "writeall":
                 used.append(op["name"])
         sessions.append(s)
+    read = {"block": gen.gen_knobs(r)["block"], "chunk": gen.gen_knobs(r)["chunk"]}
+    if base is not None:
+        # fixtures hold members of up to several MB: a 1-byte chunk limit would only make the run slow
+        read["chunk"] = max(read["chunk"], 4096)
+        read["block"] = max(read["block"], 4096)
     return {"base": base, "sessions": sessions, "target": r.wpick([(4, "path"), (3, "stream"), (2, "bufobj")]), "knobs": knobs,
-            "rng": r.randrange(1 << 30), "read": {"block": gen.gen_knobs(r)["block"], "chunk": gen.gen_knobs(r)["chunk"]}}
+            "rng": r.randrange(1 << 30), "read": read}
 
 
 def _no_drive(name):
@@ -194,7 +199,16 @@ def run_history(case, want_c07=True, want_c08=True):
             # ---------------- py7zr's own reader (C08) ----------------
             if want_c08:
                 try:
-                    names, products, meta = _py7zr_view(image, password, case["read"])
+                    from simkit.steps import StepBudgetExceeded, StepCounter
+
+                    budget = rw.read_budget(len(image), sum(len(d) for d in want_data.values()))
+                    try:
+                        with StepCounter(budget) as sc:
+                            names, products, meta = _py7zr_view(image, password, case["read"])
+                        res["sim_steps"] = res.get("sim_steps", 0) + sc.steps
+                    except StepBudgetExceeded:
+                        viol("C08", "call_never_returns", "py7zr", "reading the image after session %d exceeded %d steps (spin)" % (si, budget))
+                        break
                     if names != want_names:
                         viol("C08", "members_differ", "py7zr", "after session %d py7zr lists %r, model %r" % (si, names[:8], want_names[:8]))
                     elif products != want_data:
